@@ -241,6 +241,10 @@ def reconn_cases(chk, eng, pid, variants, reps):
             ok = f.get("reconnect") == "ok" and f.get("f2") == "got" and f.get("f1") in ("err", "got")
             what = ("a request in flight on the current connection did not get the answer its peer sent after the peer of an EARLIER connection of the same "
                     "client object had closed (or the request on the closed connection was left pending)")
+        elif c.endswith("tlsfail"):
+            ok = f.get("reconnect") == "failed" and f.get("f1") == "got" and f.get("f2") == "got" and f.get("f3") in ("senderr", "futerr")
+            what = ("after a connect() whose TLS handshake failed, the client's previous, still live connection no longer delivered the answer to a request "
+                    "sent on it, or a send after that connection was lost neither failed nor yielded a future that fails")
         else:
             ok = f.get("reconnect") == "failed" and f.get("f1") == "got" and f.get("f2") in ("senderr", "futerr")
             what = ("after a connect() that failed and the loss of the live connection, a further send neither failed nor yielded a future that fails "
@@ -368,7 +372,7 @@ def check_C11(chk, tier, seed):
             chk.corr_break("client observation differs from the model", dict(case=c, impl=short(im), model=short(mo)))
         if i % max(1, len(cases) // 6) == 0:
             chk.sample(dict(case=c, impl=short(im, 200), P=ok))
-    reconn_cases(chk, eng, "C11", ["overlap"], 2 if tier == "quick" else 10)
+    reconn_cases(chk, eng, "C11", ["overlap", "tlsfail"], 2 if tier == "quick" else 10)
     chk.rule = ("EVERY interleaving of {send starts and registers, first request octet written, send returns, peer answers} for 1, 2 and 3 outstanding requests "
                 "(answers may overtake each other, arrive before the send call has returned or before the request is fully written), the reader running to "
                 f"quiescence after every event; {nrand} sampled interleavings for 4-5 requests with split answers, varying write-gate sizes and extreme ids; "
@@ -527,7 +531,7 @@ def check_C12(chk, tier, seed):
             chk.corr_break("client observation differs from the model", dict(case=c, impl=short(im), model=short(mo)))
         if i % max(1, len(cases) // 6) == 0:
             chk.sample(dict(case=c, impl=short(im, 200), P=ok))
-    reconn_cases(chk, eng, "C12", ["overlap", "failed"], 2 if tier == "quick" else 10)
+    reconn_cases(chk, eng, "C12", ["overlap", "failed", "tlsfail"], 2 if tier == "quick" else 10)
     chk.rule = ("1..4 outstanding requests x every subset of answers already delivered x {EOF, reset, undecodable octets, unknown AVP}; the answer stream cut at "
                 f"EVERY octet offset inside a pending answer; {nrand} random histories with repeated ids (superseded waiters), unmatched answers, answers racing the "
                 "write, sends attempted after the reader stopped, bursts of 70-300 sends racing the reader's shutdown, several connections of one client object (connect() again, also failing), sends whose write fails, futures dropped by the caller, idle periods and split answers with gaps in "
